@@ -95,7 +95,7 @@ RULE = ('distinct (function, argument specification, check kind) triples evaluat
         'C20 has no executable numeric model: the correspondence run is the snapshot comparison against the skeleton summaries')
 
 ROOT = core.ROOT
-EFFECTS_JSON = os.path.join(ROOT, '.work', 'effects.json')
+EFFECTS_JSON = os.path.join(os.environ.get('VERIF_WORK_DIR') or os.path.join(ROOT, '.work'), 'effects.json')
 
 
 # ----------------------------------------------------------------------------- library access
